@@ -242,6 +242,15 @@ impl Lab {
             }
         }
         v.push(Op::Bg);
+        if self.paused_clock {
+            if let Some(d) = w.cfg.timeout_layer_ms {
+                v.push(Op::Advance(1));
+                if d > 2 {
+                    v.push(Op::Advance(d / 2));
+                    v.push(Op::Advance(d));
+                }
+            }
+        }
         v
     }
 
@@ -326,12 +335,12 @@ impl Lab {
                         respond: None,
                         avail_at_issue: vec![],
                         must_use_idle: false,
-                        expect_conn: None,
                         waits_on: None,
                         is_owner: false,
                         timeout_ms,
                         issued_vtime_ms: vnow,
                         finished_vtime_ms: None,
+                        respond_vtime_ms: None,
                     });
                     monitors::on_issue(&mut w, rid);
                     w.count(if h2 { "issued_h2" } else { "issued_h1" });
@@ -361,9 +370,21 @@ impl Lab {
                 };
                 let waker = Waker::from(wk);
                 let mut cx = Context::from_waker(&waker);
+                let (inner_ready, stage) = {
+                    let w = lock(&self.world);
+                    (monitors::inner_would_resolve(&w, r), monitors::stage_of(&w, r))
+                };
                 let res = fut.as_mut().poll(&mut cx);
                 let mut w = lock(&self.world);
                 let step = w.step;
+                if w.cfg.timeout_layer_ms.is_some() {
+                    let outcome = match &res {
+                        Poll::Pending => None,
+                        Poll::Ready(Ok(_)) => Some(Ok(())),
+                        Poll::Ready(Err(e)) => Some(Err(format!("{e:?}"))),
+                    };
+                    monitors::on_timeout_poll(&mut w, r, outcome, inner_ready, stage, wakes);
+                }
                 match res {
                     Poll::Pending => {
                         let progressed = w.reqs[r].state != before;
@@ -390,6 +411,16 @@ impl Lab {
                                 let es = format!("{e:?}");
                                 monitors::on_poll_result(&mut w, r, true, wakes, polls_before);
                                 monitors::on_request_error(&mut w, r, &es);
+                                if es.contains("RequestTimeout") {
+                                    // the caller drops the timed-out future: whatever it had in flight is abandoned
+                                    if let Some(d) = w.reqs[r].dial {
+                                        let outstanding = !w.dials[d].completed || w.dials[d].hs.map(|h| !w.hss[h].completed).unwrap_or(w.dials[d].res != Res3::Err);
+                                        if outstanding && before == ReqState::Checkout && w.dials[d].abandoned_step.is_none() {
+                                            w.dials[d].abandoned_step = Some(step);
+                                        }
+                                    }
+                                    w.count("timeouts");
+                                }
                                 w.reqs[r].state = ReqState::Failed;
                                 w.reqs[r].error = Some(es);
                                 w.count("requests_err");
@@ -462,6 +493,7 @@ impl Lab {
             Op::Respond(r) | Op::RespondUpgrade(r) => {
                 let waker = {
                     let mut w = lock(&self.world);
+                    let vnow = w.vnow_ms();
                     let Some(rr) = w.reqs.get_mut(r) else { return false };
                     if rr.state != ReqState::Sent || rr.respond.is_some() {
                         return false;
@@ -469,6 +501,7 @@ impl Lab {
                     let up = matches!(op, Op::RespondUpgrade(_));
                     rr.respond = Some(up);
                     rr.upgrade = up;
+                    rr.respond_vtime_ms = Some(vnow);
                     rr.resp_waker.take()
                 };
                 if let Some(wk) = waker {
@@ -666,7 +699,11 @@ impl Lab {
             }
             let mut w = lock(&self.world);
             let st = w.reqs[rid].state;
-            if st != ReqState::Done {
+            let zero_timeout = w.cfg.timeout_layer_ms == Some(0) && w.reqs[rid].error.as_deref().map(|e| e.contains("RequestTimeout")).unwrap_or(false);
+            if zero_timeout {
+                // with a zero timeout every request that needs a dial legitimately times out at its first poll
+                w.count("probes_timed_out_with_zero_timeout");
+            } else if st != ReqState::Done {
                 let err = w.reqs[rid].error.clone();
                 w.violate("C03", format!("probe-not-served:{st:?}"), format!("fresh probe r{rid} to origin {o} ended {st:?} ({err:?}) after the drain"));
             } else {
